@@ -11,10 +11,12 @@ The third-party models are tied to the real crates only by the differential of
 -/
 import SophiaProofs.Lemmas.XmlGlue
 import SophiaProofs.Lemmas.XmlDoc
+import SophiaProofs.Lemmas.XmlWellFormed
 
 
 namespace SophiaProofs.C18
 open SophiaModel SophiaModel.XmlGlue SophiaProofs.XmlGlueL SophiaProofs.XmlRT SophiaProofs.XmlTok SophiaProofs.XmlDoc
+open SophiaProofs.XmlWF
 
 /-! ## which triples are representable (`convert_triple` + the formatter's own refusals) -/
 
@@ -484,5 +486,207 @@ theorem prop_name_ncname (p : Str) (h : (splitIri p).2 ≠ []) : isNCName (propN
     | cons _ _ => rfl
   have : (propName p).1 = (splitIri p).2 := by simp [propName, hne]
   rw [this]; exact (splitIri_valid p _ _ rfl h).1
+
+/-! ## "either fails with an error or …; for strict graphs it always succeeds" -/
+
+/-- a triple that `convert_triple` hands to the formatter although it contains a quoted triple -/
+def refused (t : Triple) : Bool := strictStar (.triple t.1 t.2.1 t.2.2) && !isStrict t
+
+/-- **the serialiser fails exactly when the graph contains a convertible quoted triple** — for
+every graph and every indentation; nothing else (no text, no IRI, no blank node label, no
+predicate shape) makes it fail. -/
+theorem serialize_fails_iff (n : Nat) (ts : List Triple) :
+    serialize n ts = none ↔ ∃ t ∈ ts, refused t = true := by
+  have hser : serialize n ts = none ↔ (formatAll none (ts.filterMap convertTriple)).isSome = false := by
+    simp only [serialize, pieces, events]
+    cases formatAll none (ts.filterMap convertTriple) <;> simp
+  rw [hser, formatAll_isSome]
+  constructor
+  · intro h
+    have hex : ∃ rt ∈ ts.filterMap convertTriple, fmtOK rt = false := by
+      false_or_by_contra
+      rename_i hno
+      have : (ts.filterMap convertTriple).all fmtOK = true := by
+        apply List.all_eq_true.mpr
+        intro rt hrt
+        cases hb : fmtOK rt with
+        | true => rfl
+        | false => exact absurd ⟨rt, hrt, hb⟩ hno
+      rw [this] at h
+      exact Bool.noConfusion h
+    obtain ⟨rt, hrt, hbad⟩ := hex
+    obtain ⟨t, ht, hc⟩ := List.mem_filterMap.mp hrt
+    refine ⟨t, ht, ?_⟩
+    have hss : strictStar (.triple t.1 t.2.1 t.2.2) = true := (representable_iff t).mp (by simp [hc])
+    cases hs : isStrict t with
+    | false => simp [refused, hss, hs]
+    | true =>
+      obtain ⟨rt', hc', hf⟩ := (written_iff none t).mpr hs
+      rw [hc] at hc'
+      cases hc'
+      cases rt with
+      | mk s p o =>
+        have h2 := formatTriple_isSome none s p o
+        simp only [fmtOK] at hbad
+        rw [hbad] at h2
+        cases hft : formatTriple none (.mk s p o) with
+        | none => exact absurd hft hf
+        | some r => simp [hft] at h2
+  · rintro ⟨t, ht, hr⟩
+    simp only [refused, Bool.and_eq_true, Bool.not_eq_true'] at hr
+    obtain ⟨hss, hns⟩ := hr
+    have hne := (representable_iff t).mpr hss
+    cases hc : convertTriple t with
+    | none => exact absurd hc hne
+    | some rt =>
+      have hq := quoted_is_error none t rt hc hns
+      cases hall : (ts.filterMap convertTriple).all fmtOK with
+      | false => rfl
+      | true =>
+        have h1 := List.all_eq_true.mp hall rt (List.mem_filterMap.mpr ⟨t, ht, hc⟩)
+        cases rt with
+        | mk s p o =>
+          have h2 := formatTriple_isSome none s p o
+          simp only [fmtOK] at h1
+          rw [h1, hq] at h2
+          exact Bool.noConfusion h2
+
+/-- **for strict RDF graphs — and, more generally, graphs whose non-strict triples are all skipped
+by `convert_triple` (literal / variable subjects, non-IRI predicates, …) — serialisation always
+succeeds**, whatever the text, the predicates and the indentation -/
+theorem strict_graph_serializes (n : Nat) (ts : List Triple) (h : ∀ t ∈ ts, refused t = false) :
+    ∃ doc, serialize n ts = some doc := by
+  cases hs : serialize n ts with
+  | some doc => exact ⟨doc, rfl⟩
+  | none =>
+    obtain ⟨t, ht, hr⟩ := (serialize_fails_iff n ts).mp hs
+    rw [h t ht] at hr
+    exact Bool.noConfusion hr
+
+example : refused (.triple (.iri "x:a".toList) (.iri "x:b".toList) (.iri "x:c".toList), .iri "x:p".toList, .iri "x:o".toList) = true := by
+  decide
+example : refused (.triple (.var "v".toList) (.iri "x:b".toList) (.iri "x:c".toList), .iri "x:p".toList, .iri "x:o".toList) = false := by
+  decide
+example : refused (.bnode "0".toList, .iri "http://ex.org/".toList, .lit " ".toList xsdString) = false := by decide
+
+/-! ## the three exits of `serialize_triples` (failing writer, failing source) -/
+
+theorem serialize_unfold (n : Nat) (ts : List Triple) :
+    serialize n ts = match formatAll none (ts.filterMap convertTriple) with
+      | none => none
+      | some (cur, evs) => some (render (writeAll (indentOf n) (startEvs ++ evs ++ finishEvs cur))) := by
+  simp only [serialize, pieces, events]
+  cases formatAll none (ts.filterMap convertTriple) <;> rfl
+
+/-- with a writer that never fails (`Vec<u8>`) and a source that never fails, `serialize_triples`
+is `serialize`: a formatter refusal is the only error, reported as `SinkError` -/
+theorem outcome_plain (n : Nat) (ts : List Triple) :
+    serializeTriples n ts false none = (match serialize n ts with | some d => .ok d | none => .sinkErr) := by
+  rw [serialize_unfold]
+  simp only [serializeTriples, overflows]
+  cases formatAll none (ts.filterMap convertTriple) <;> simp
+
+/-- **an error of the writer is never swallowed**: if the writer accepts fewer bytes than the
+document needs — wherever it stops, the end tags written by `finish()` included — the result is
+`Err(SinkError)`, never `Ok` -/
+theorem sink_error_never_swallowed (n : Nat) (ts : List Triple) (doc : Str) (cap : Nat)
+    (h : serialize n ts = some doc) (hc : cap < utf8Len doc) :
+    serializeTriples n ts false (some cap) = .sinkErr := by
+  rw [serialize_unfold] at h
+  simp only [serializeTriples]
+  cases hf : formatAll none (ts.filterMap convertTriple) with
+  | none => rfl
+  | some r =>
+    obtain ⟨cur, evs⟩ := r
+    simp only [hf, Option.some.injEq] at h
+    simp only []
+    split
+    · rfl
+    · simp only [Bool.false_eq_true, if_false, h, overflows, hc, decide_true, if_true]
+
+/-- **an error of the triple source is never swallowed**: the result is never `Ok` -/
+theorem source_error_never_swallowed (n : Nat) (ts : List Triple) (cap : Option Nat) (d : Str) :
+    serializeTriples n ts true cap ≠ .ok d := by
+  simp only [serializeTriples]
+  cases formatAll none (ts.filterMap convertTriple) with
+  | none => simp
+  | some r => obtain ⟨cur, evs⟩ := r; simp only []; split <;> simp
+
+/-- **`Ok` means the whole document was written**: the source did not fail, the writer holds
+exactly `serialize n ts`, and that fitted -/
+theorem ok_is_whole_document (n : Nat) (ts : List Triple) (f : Bool) (cap : Option Nat) (d : Str)
+    (h : serializeTriples n ts f cap = .ok d) : f = false ∧ serialize n ts = some d ∧ overflows cap d = false := by
+  rw [serialize_unfold]
+  simp only [serializeTriples] at h
+  cases hf : formatAll none (ts.filterMap convertTriple) with
+  | none => simp [hf] at h
+  | some r =>
+    obtain ⟨cur, evs⟩ := r
+    simp only [hf] at h
+    split at h
+    · simp at h
+    · cases f with
+      | true => simp at h
+      | false =>
+        simp only [Bool.false_eq_true, if_false] at h
+        split at h
+        · simp at h
+        · rename_i hov
+          simp only [Outcome.ok.injEq] at h
+          subst h
+          exact ⟨rfl, rfl, by simpa using hov⟩
+
+/-- the default configuration is "no indentation" (`indentOf 0 = none`: `RdfXmlFormatter::new`) -/
+theorem default_is_unindented : indentOf defaultIndentation = none := rfl
+
+set_option maxRecDepth 100000 in
+/-- non-vacuity: a two-byte-short writer on a real document (the last bytes come from `finish`) -/
+example : serializeTriples 0 [(.iri "x:s".toList, .iri "x:p".toList, .lit "é".toList xsdString)] false (some 150) = .sinkErr := by
+  decide
+set_option maxRecDepth 100000 in
+example : (match serializeTriples 2 [(.iri "x:s".toList, .iri "x:p".toList, .lit "é".toList xsdString)] false (some 1000) with
+    | .ok _ => true | _ => false) = true := by
+  decide
+
+/-! ## "produces a well-formed document" — the structural part -/
+
+/-- an element name that is admissible in a namespace-well-formed document whose root element
+declares the prefix `rdf` (as `startEvs` does) -/
+def qnameOK (n : Str) : Bool := n == rdfRDF || n == rdfDescription || isNCName n
+
+/-- **`wellformed_partial`: whenever the serialiser succeeds on a graph all of whose (strict)
+predicates have an NCName suffix, the event stream is a properly nested document (declaration
+first, ONE root element, matching end tags, text only inside elements, nothing after the root),
+every element name is `rdf:RDF`, `rdf:Description` or an NCName, and no tag has two attributes of
+the same name.**
+The hypothesis is necessary (`prop_name_not_qname`: otherwise the element name is `prop:`).
+Together with `escape_no_markup` (text and attribute values contain no `<`, `"`, …) and
+`indent_never_touches_text` this is what the model proves of "produces a well-formed document";
+NOT proved: that the rendered characters are XML `Char`s (true iff every string of the graph is
+`XmlLegal`) and the XML grammar itself (the model's tokeniser reads the output back,
+`roundtrip_partial`, but it is lenient) — the harness's own checker judges the real output. -/
+theorem wellformed_partial (ts : List Triple) (evs : List Ev) (h : events ts = some evs)
+    (hq : ∀ t ∈ ts, isStrict t = true → ∀ p, t.2.1 = .iri p → (splitIri p).2 ≠ []) :
+    nest .fresh evs = some .done ∧ (∀ e ∈ evs, ∀ n, elemName e = some n → qnameOK n = true) ∧
+      (∀ e ∈ evs, ((attrsOf e).map (·.1)).Nodup) := by
+  refine ⟨nest_events ts evs h, ?_, keys_events ts evs h⟩
+  intro e he n hn
+  rcases names_events ts evs h e he n hn with h1 | h1 | ⟨p, hp, h1⟩
+  · subst h1; decide
+  · subst h1; decide
+  · obtain ⟨rt, hrt, hpr⟩ := List.mem_map.mp hp
+    obtain ⟨t, ht, hc⟩ := List.mem_filterMap.mp hrt
+    have hs := events_all_strict ts evs h t ht rt hc
+    have hp' : t.2.1 = .iri p := by rw [← hpr]; exact convert_pred t rt hc
+    have hnc := prop_name_ncname p (hq t ht hs p hp')
+    simp [qnameOK, h1, hnc]
+
+/-- nesting alone needs no hypothesis: every successful serialisation, of any graph -/
+theorem events_well_nested (ts : List Triple) (evs : List Ev) (h : events ts = some evs) :
+    nest .fresh evs = some .done := nest_events ts evs h
+
+example : nest .fresh [.decl, .start "a".toList [], .text "x".toList, .close "b".toList] = none := by decide
+example : nest .fresh [.decl, .start "a".toList [], .close "a".toList, .empty "b".toList []] = none := by decide
+example : nest .fresh [.start "a".toList [], .decl, .close "a".toList] = none := by decide
 
 end SophiaProofs.C18
